@@ -661,7 +661,7 @@ def mt_runs(ck, tier):
     confs = ((2, 400, 10), (4, 300, 20), (8, 150, 5))
     flags = {'plain': [], 'tsan': ['-fsanitize=thread'], 'asan': ['-fsanitize=address,undefined']}
     info = {}
-    for kind in ('plain', 'tsan', 'asan'):
+    for kind in (('plain',) if tier == 'quick' else ('plain', 'tsan', 'asan')):
         exe, err = ck.build_harness('lg_mt_' + kind, ['lg_mt.cpp'], flags=flags[kind], san=False)
         if not exe:
             return 'lg_mt.cpp (%s) does not compile against /repo: %s' % (kind, err[-300:]), None
@@ -719,8 +719,7 @@ def run(tier):
         return monitor(case, impl_line)
     dis, monf = correspond(ck, 'M-REG vs Frontend/LoggerManager/SinkManager/ManualBackendWorker', cases, ml, il, monitor=mon, shrink=shrink,
                            known_match=known_match_for(ck))
-    tinfo = 'thorough tier only'
-    if tier != 'quick':
+    if True:     # quick: the plain build only; thorough: plain, ThreadSanitizer, AddressSanitizer
         tmsg, tinfo = mt_runs(ck, tier)
         if tmsg:
             ck.violation('impl-failing-input', 'real threads over Frontend / LoggerManager / SinkManager with the real backend thread (checks at the return of remove_logger_blocking; sanitizers): ' + tmsg,
